@@ -206,6 +206,74 @@ pub fn run(args: &Args) -> i32 {
             }
         }
     }
+    // result files that agree with the computed U of every wall: nothing to report, nothing to override
+    for d in project_dirs().into_iter().filter(|d| ["cubo", "casoA", "casoC"].contains(&d.file_name().unwrap().to_string_lossy().as_ref())) {
+        let name = d.file_name().unwrap().to_string_lossy().to_string();
+        let dst = tmp.join(format!("{name}-agreeing"));
+        copy_dir(&d, &dst, &[]);
+        let find = |what: &str| std::fs::read_dir(&dst).ok().and_then(|rd| rd.flatten().map(|e| e.path()).find(|p| p.file_name().map_or(false, |n| n.to_string_lossy().eq_ignore_ascii_case(what))));
+        let (Some(kyg), Some(tbl)) = (find("KyGananciasSolares.txt"), find("NewBDL_O.tbl")) else { continue };
+        let latin = |p: &Path| -> String { std::fs::read(p).unwrap_or_default().iter().map(|b| *b as char).collect() };
+        let unlatin = |t: &str| -> Vec<u8> { t.chars().map(|c| c as u32 as u8).collect() };
+        let mut agreed = false;
+        for _round in 0..4 {
+            let ds = dst.to_string_lossy().to_string();
+            let extra = match guarded(move || hulc2model::collect_hulc_data(&ds, true, true).map(|m| m.extra.unwrap_or_default())) {
+                Outcome::Ok(e) => e,
+                _ => break,
+            };
+            if extra.is_empty() {
+                agreed = true;
+                break;
+            }
+            let mut ktext = latin(&kyg);
+            let mut ttext = latin(&tbl);
+            for e in &extra {
+                let u = format!("{:.2}", e.computed_u);
+                if e.bounds == bemodel::BoundaryType::INTERIOR {
+                    let lines: Vec<String> = ttext.split("\r\n").map(|l| l.to_string()).collect();
+                    let mut out = lines.clone();
+                    if let Some(i) = lines.iter().position(|l| l.trim() == format!("\"{}\"", e.name)) {
+                        if let Some(vals) = lines.get(i + 1) {
+                            let mut toks: Vec<String> = vals.split_whitespace().map(|t| t.to_string()).collect();
+                            if toks.len() > 1 {
+                                toks[1] = u.clone();
+                                out[i + 1] = toks.join(" ");
+                            }
+                        }
+                    }
+                    ttext = out.join("\r\n");
+                } else {
+                    let prefix = format!("Muro;{};", e.name);
+                    let mut found = false;
+                    let mut lines: Vec<String> = ktext.split("\r\n").map(|l| l.to_string()).collect();
+                    for l in lines.iter_mut() {
+                        if l.starts_with(&prefix) {
+                            let mut f: Vec<String> = l.split(';').map(|x| x.to_string()).collect();
+                            if f.len() > 3 {
+                                f[3] = u.clone();
+                                *l = f.join(";");
+                                found = true;
+                            }
+                        }
+                    }
+                    if !found {
+                        if let Some(i) = lines.iter().rposition(|l| l.starts_with("Muro;")) {
+                            lines.insert(i + 1, format!("Muro;{};1.00;{};1.00", e.name, u));
+                        }
+                    }
+                    ktext = lines.join("\r\n");
+                }
+            }
+            std::fs::write(&kyg, unlatin(&ktext)).ok();
+            std::fs::write(&tbl, unlatin(&ttext)).ok();
+        }
+        if agreed {
+            run_tool(&mut cw, &bindir, &format!("project:{name}:agreeing-results:extra"), &dst.to_string_lossy(), true);
+        } else {
+            cw.write(json!({"op": "noop", "label": format!("project:{name}:agreeing-results:not-built"), "kind": "note", "impl": {"library_converts": false}}));
+        }
+    }
     // synthetic projects: generated BDL inside the XML envelope of a shipped project
     let thorough = args.tier == "thorough";
     if let Some(template) = project_dirs().into_iter().find(|d| d.file_name().map(|n| n == "cubo").unwrap_or(false)) {
